@@ -8,6 +8,7 @@ normal forms over the same symbols - with the values handed to
 filenode.read().  Nothing is matched on text or position.
 """
 from sa.h import *
+from sa.deferred import REG, _unchain
 import copy
 
 EXPLANATION = (
@@ -23,8 +24,19 @@ EXPLANATION = (
     "ValueError handler returns None, every raise in parse_range is caught by it; (5) parse_range returns "
     "(filesize-int(n), filesize-1) for '-n', (int(a), filesize-1) for 'a-', (int(a), int(b)) for 'a-b' and only "
     "when first <= last; (6) render_HEAD and render_GET both answer through FileDownloader on the best readable "
-    "version.  Undecided: leniency of int() on odd numerals, empty-file suffix ranges, the byte "
-    "content delivered by filenode.read(), multipart responses (first range only, as the code documents).")
+    "version (the very Deferred the FileDownloader callback was added to is what is returned); (7) parse_range_header "
+    "is applied to req.getHeader('range') and a response completes unparsed only on a path that established the "
+    "header absent/empty; the 416 is the argument bound to the WebError parameter stored in self.code; (8) a GET "
+    "path returns the Deferred of filenode.read() and the last success callback on it answers None/empty (so the "
+    "renderer writes nothing after the bytes read() wrote and finishes only when read() is done); (9) in "
+    "render_GET/render_HEAD every path feasible for a request without t= goes through the FileDownloader or a "
+    "satisfied setETag conditional, never an explicit raise or another return.  Undecided: leniency of int() on "
+    "odd numerals, empty-file suffix ranges, the byte content delivered by filenode.read(), multipart responses "
+    "(first range only, as the code documents), which files get an ETag and its value (ETag / If-None-Match is "
+    "outside RFC 7233 ranges; render_HEAD sets none), content-type / content-encoding / content-disposition / "
+    "accept-ranges values (only HEAD = GET is decided for them), the t=json/info/uri representations, what "
+    "humanize_exception / _finish in web/common.py do with WebError.code and with a None result, the error "
+    "path of the read Deferred (_error).")
 TECHNIQUE = "static analysis: symbolic path enumeration over the CFG with polynomial normal forms (announced = served)"
 
 DL = "web.filenode:FileDownloader"
@@ -239,11 +251,38 @@ def _is_206(code):
     return code.endswith("PARTIAL_CONTENT") or code == "206"
 
 
-def _raises_416(ev):
+def _status_args(idx, fn, e):
+    """Arguments of the exception constructor call `e` that become the HTTP status.  When the class is indexed and
+    its __init__ stores one of its parameters into self.code (web.common.WebError; humanize_exception answers
+    exc.code), only the argument bound to that parameter counts; otherwise every argument is a candidate."""
+    every = list(e.args) + [k.value for k in e.keywords]
+    ci = idx.resolve_expr_to_class(fn.module, e.func)
+    init = ci.lookup("__init__") if ci is not None else None
+    if init is None:
+        return every
+    ps = first_positional_params(init)
+    code_params = []
+    for st in func_own_nodes(init):
+        if isinstance(st, ast.Assign) and isinstance(st.value, ast.Name) and st.value.id in ps \
+                and any(attr_path(t) == "self.code" for t in st.targets):
+            code_params.append(st.value.id)
+    if len(code_params) != 1:
+        return every
+    cp = code_params[0]
+    if any(isinstance(a, ast.Starred) for a in e.args) or any(k.arg is None for k in e.keywords):
+        return every
+    i = ps.index(cp)
+    if i < len(e.args):
+        return [e.args[i]]
+    return [k.value for k in e.keywords if k.arg == cp]
+
+
+def _raises_416(ev, idx=None, fn=None):
     e = ev.exc
     if not isinstance(e, ast.Call):
         return False
-    for a in list(e.args) + [k.value for k in e.keywords]:
+    cands = _status_args(idx, fn, e) if idx is not None else list(e.args) + [k.value for k in e.keywords]
+    for a in cands:
         s = nz(a)
         if s.endswith("REQUESTED_RANGE_NOT_SATISFIABLE") or s == "416":
             return True
@@ -387,7 +426,7 @@ def run(ctx: Context):
             es = evs[id(p)]
             sts = [e for e in es if e.kind == "status"]
             crs = [e for e in es if e.kind == "header" and e.name == "content-range"]
-            r416 = [e for e in es if e.kind == "raise" and _raises_416(e)]
+            r416 = [e for e in es if e.kind == "raise" and _raises_416(e, idx, render)]
             for e in sts + crs + r416:
                 sites[e.node.id] = e
             parsed = parse_state(p)
@@ -639,9 +678,19 @@ def run(ctx: Context):
                 r.site(fn, n.ast, "FileDownloader on best readable version")
             # the Deferred carrying the FileDownloader is what is returned
             for n in ws:
-                dv = [attr_path(c.func.value) for c in node_calls(n) if call_tail(c) in ("addCallback", "addCallbacks")]
-                rets = find_path_from_to_avoiding(cfg, lambda m, _n=n: m is _n,
-                                                  lambda m, _dv=dv: is_return(m) and attr_path(m.ast.value) in _dv)
+                recvs = [c.func.value for c in node_calls(n) if call_tail(c) in ("addCallback", "addCallbacks")]
+                dv = [attr_path(x) for x in recvs]
+                origin = [fnorm.resolve(n, x) for x in recvs]
+
+                def returns_it(m, _dv=dv, _origin=origin, _fnorm=fnorm):
+                    # the same Deferred object: the same variable, or a plain-name copy of the same defining call
+                    if not is_return(m) or m.ast.value is None:
+                        return False
+                    o = _fnorm.resolve(m, m.ast.value)
+                    if isinstance(o, ast.Call) and all(isinstance(x, ast.Call) for x in _origin):
+                        return any(o is x for x in _origin)
+                    return attr_path(m.ast.value) in _dv
+                rets = find_path_from_to_avoiding(cfg, lambda m, _n=n: m is _n, returns_it)
                 for (s0, w) in rets:
                     r.violation(fn, fn.loc(s0.ast), "the Deferred carrying the FileDownloader is not what %s returns"
                                 % meth, w)
@@ -650,6 +699,229 @@ def run(ctx: Context):
                     r.violation(fn, fn.loc(), "a HEAD request can be answered without FileDownloader.render "
                                 "(status/headers differ from GET) (path: %s)" % w.brief(), w)
             r.count(len(cfg.nodes))
+
+    # ---------------------------------------------------------------- C40.7
+    with ctx.rule("C40.7", "E2/R1", "render: parse_range_header is applied to the request's Range header, and a "
+                  "response is completed without parsing only when that header is absent", expected=2) as r:
+        def is_range_hdr(e):
+            if not (isinstance(e, ast.Call) and call_tail(e) == "getHeader" and isinstance(e.func, ast.Attribute)
+                    and nz(e.func.value) == req and len(e.args) == 1 and not e.keywords
+                    and isinstance(e.args[0], ast.Constant)):
+                return False
+            v = e.args[0].value
+            if isinstance(v, bytes):
+                v = v.decode("latin-1")
+            return isinstance(v, str) and v.lower() == "range"
+        sites = {}
+        n_parse = 0
+        for p in paths:
+            parsed_here = False
+            absent = None
+            for (n, lab, env) in p.steps:
+                if lab == "exc":
+                    continue
+                for c in node_calls(n):
+                    if call_tail(c) == "parse_range_header" and isinstance(c.func, ast.Attribute) \
+                            and nz(c.func.value) == "self":
+                        parsed_here = True
+                        n_parse += 1
+                        sites[n.id] = (n, "parse_range_header call")
+                        a = arg(c, 0, first_positional_params(prh)[0])
+                        a = _sub(env, a) if a is not None else None
+                        if a is None or not is_range_hdr(a):
+                            report(r, n, "parse_range_header is applied to %s, not to %s.getHeader('range')" % (
+                                nz(a) if a is not None else "nothing", req), p)
+                if n.kind == "test" and isinstance(lab, tuple):
+                    t = _sub(env, n.ast)
+                    hs = {nz(x) for x in ast.walk(t) if is_range_hdr(x)}
+                    if hs:
+                        (op, l, rr) = _NORM.cmp(t, lab[0] == "T")
+                        if (op == "false" and l in hs) or (op in ("is", "==") and {l, rr} & hs
+                                                           and {l, rr} & {"None", "''", "b''"}):
+                            absent = n
+            if absent is not None:
+                sites[absent.id] = (absent, "Range header absent")
+            if p.end == "exit" and not parsed_here and absent is None:
+                report(r, p.steps[-1][0], "a response is completed without parsing the Range header on a path that "
+                       "did not establish that the header is absent (a range request is answered with the full file)",
+                       p)
+            r.count(len(p.steps))
+        if not n_parse:
+            raise AnchorVanished("render no longer calls self.parse_range_header")
+        for (n, what) in sites.values():
+            r.site(render, n.ast, what)
+
+    # ---------------------------------------------------------------- C40.8
+    with ctx.rule("C40.8", "E7", "render (GET): what is returned is the Deferred of filenode.read(), and its success "
+                  "result (the consumer) is mapped to None/empty so that nothing follows the bytes read() wrote",
+                  expected=2) as r:
+        def is_read_call(e):
+            return isinstance(e, ast.Call) and call_tail(e) == "read" and nz(e.func) == "self.filenode.read"
+
+        def answers_nothing(t):
+            """True/False when decidable, None otherwise: the callable maps a success result to None / empty."""
+            def empty(v):
+                return v is None or (isinstance(v, ast.Constant) and v.value in (None, b"", ""))
+            if isinstance(t, ast.Lambda):
+                return empty(t.body)
+            if isinstance(t, ast.Name):
+                f = render.nested.get(t.id.split("@")[0])
+                if f is not None:
+                    if any(isinstance(x, (ast.Yield, ast.YieldFrom, ast.Await)) for x in func_own_nodes(f)):
+                        return None
+                    return all(empty(x.value) for x in func_own_nodes(f) if isinstance(x, ast.Return))
+            return None
+        sites = {}
+        n_get = 0
+        for p in paths:
+            if p.end != "exit":
+                continue
+            es = evs[id(p)]
+            rds = [e for e in es if e.kind == "read"]
+            if not rds:
+                continue
+            n_get += 1
+            r.count(len(p.steps))
+            sites[rds[0].node.id] = (rds[0].node, "read")
+            rets = [e for e in es if e.kind == "return"]
+            last = p.steps[-1][0]
+            if not rets or rets[-1].value is None:
+                report(r, last, "a GET path that started filenode.read() returns nothing: the response is finished "
+                       "while read() is still delivering the body", p)
+                continue
+            sites[rets[-1].node.id] = (rets[-1].node, "return")
+            base, _chain = _unchain(rets[-1].value)
+            if not is_read_call(base):
+                report(r, rets[-1].node, "a GET path returns %s, not the Deferred of filenode.read(): the response is "
+                       "finished independently of the body delivery" % nz(rets[-1].value), p)
+                continue
+            regs = []
+            for pos, (n, lab, env) in enumerate(p.steps):
+                if lab == "exc" or pos < rds[0].pos:
+                    continue
+                for c in node_calls(n):
+                    if call_tail(c) not in REG:
+                        continue
+                    b, chain = _unchain(_sub(env, c))
+                    if not chain or not is_read_call(b):
+                        continue
+                    c2 = chain[-1]
+                    kind = REG[c2.func.attr]
+                    tgt = c2.args[0] if c2.args else kwarg(c2, "callback")
+                    if kind == "eb" or tgt is None:
+                        continue
+                    regs.append(((pos, len(chain)), tgt, n))
+            regs.sort(key=lambda x: x[0])
+            if not regs:
+                report(r, rets[-1].node, "the Deferred of filenode.read() is returned with its result (the consumer, "
+                       "i.e. the request) unmapped: the renderer appends an error text after the body", p)
+                continue
+            _k, tgt, n = regs[-1]
+            ok = answers_nothing(tgt)
+            if ok is None:
+                raise AnalysisError("cannot resolve the final success callback %s of the read Deferred" % nz(tgt))
+            if not ok:
+                report(r, n, "the final success callback of the read Deferred (%s) does not answer None/empty: "
+                       "something is appended after the bytes read() wrote" % ast.unparse(tgt), p)
+        if not n_get:
+            raise AnchorVanished("render has no completing path that calls filenode.read()")
+        for (n, what) in sites.values():
+            r.site(render, n.ast, what)
+
+    # ---------------------------------------------------------------- C40.9
+    with ctx.rule("C40.9", "E2/R1", "FileNodeHandler.render_GET / render_HEAD: a request without t= is answered by the "
+                  "FileDownloader (or by a satisfied conditional request via setETag), never by an error or another "
+                  "representation", expected=2) as r:
+        def is_t(e):
+            for _ in range(6):
+                if isinstance(e, ast.Call) and isinstance(e.func, ast.Attribute) \
+                        and e.func.attr in ("strip", "decode", "encode", "lower"):
+                    e = e.func.value
+                elif isinstance(e, ast.Call) and isinstance(e.func, ast.Name) and e.func.id in ("str", "bytes") and e.args:
+                    e = e.args[0]
+                else:
+                    break
+            if not (isinstance(e, ast.Call) and call_tail(e) == "get_arg" and len(e.args) >= 2):
+                return False
+            k = e.args[1]
+            if not (isinstance(k, ast.Constant) and k.value in ("t", b"t")):
+                return False
+            dflt = arg(e, 2, "default")
+            return dflt is None or (isinstance(dflt, ast.Constant) and not dflt.value)
+
+        def is_empty_const(e):
+            return isinstance(e, ast.Constant) and e.value in ("", b"")
+
+        def value_without_t(t):
+            """Truth value of an atomic test when the request has no t= argument; None when it does not decide."""
+            if is_t(t):
+                return False
+            if isinstance(t, ast.UnaryOp) and isinstance(t.op, ast.Not):
+                v = value_without_t(t.operand)
+                return None if v is None else (not v)
+            if isinstance(t, ast.Compare) and len(t.ops) == 1:
+                a, op, b = t.left, t.ops[0], t.comparators[0]
+                if isinstance(op, (ast.Eq, ast.NotEq)):
+                    other = b if is_t(a) else (a if is_t(b) else None)
+                    if isinstance(other, ast.Constant) and isinstance(other.value, (str, bytes)):
+                        eq = is_empty_const(other)
+                        return eq if isinstance(op, ast.Eq) else (not eq)
+                if isinstance(op, (ast.In, ast.NotIn)) and is_t(a) and isinstance(b, (ast.List, ast.Tuple, ast.Set)) \
+                        and all(isinstance(x, ast.Constant) for x in b.elts):
+                    has = any(is_empty_const(x) for x in b.elts)
+                    return has if isinstance(op, ast.In) else (not has)
+            return None
+
+        for meth in ("render_HEAD", "render_GET"):
+            fn = idx.func("web.filenode:FileNodeHandler." + meth)
+
+            def wraps9(n):
+                for c in node_calls(n):
+                    if call_tail(c) in ("addCallback", "addCallbacks") and c.args and isinstance(c.args[0], ast.Lambda) \
+                            and isinstance(c.args[0].body, ast.Call) and call_tail(c.args[0].body) == "FileDownloader":
+                        return True
+                return False
+            through = 0
+            t_tests = {}
+            done = set()
+            for p in sym_paths(fn):
+                feasible = True
+                cached = False
+                for (n, lab, env) in p.steps:
+                    if n.kind == "test" and isinstance(lab, tuple):
+                        t = _sub(env, n.ast)
+                        v = value_without_t(t)
+                        if v is not None:
+                            t_tests[n.id] = n
+                            if v != (lab[0] == "T"):
+                                feasible = False
+                                break
+                        if lab[0] == "T" and isinstance(t, ast.Call) and call_tail(t) == "setETag":
+                            cached = True
+                if not feasible:
+                    continue
+                r.count(len(p.steps))
+                if any(wraps9(n) for (n, _l, _e) in p.steps):
+                    through += 1
+                    continue
+                last = p.steps[-1][0]
+                if last.id in done:
+                    continue
+                w = ["L%d%s %r" % (n.lineno, (" [%s]" % lab[0]) if isinstance(lab, tuple) else "", n)
+                     for (n, lab, _e) in p.steps if n.kind not in ("entry",)]
+                if p.end == "exit" and not cached:
+                    done.add(last.id)
+                    r.violation(fn, fn.loc(last.ast), "%s answers a request without t= without the FileDownloader and "
+                                "without a satisfied conditional request (setETag): the download is not served" % meth, w)
+                elif p.end == "raise" and is_raise(last):
+                    done.add(last.id)
+                    r.violation(fn, fn.loc(last.ast), "%s answers a request without t= with an error (%s)" % (
+                        meth, src(fn, last.ast)), w)
+            if not t_tests:
+                raise AnchorVanished("%s no longer dispatches on the t= argument" % meth)
+            if not through:
+                r.violation(fn, fn.loc(), "no path of %s serves a request without t= through the FileDownloader" % meth)
+            r.site(fn, fn.node, "dispatch on t=")
 
 
 def _first_of_parse(p):
